@@ -56,7 +56,14 @@ SPEC = {
             "states, then add_conditional_gate(control, target, X|Y|Z|CX|Swap|CCX, bits) with generated control lists (subset, order, "
             "repeats, empty, full register) and targets (mostly the control word of an existing shot), then measure_all; the situation "
             "before/after the conditional gate is read from the execution trace hook (counts, decoded basis state and raw text of "
-            "every range, register). The driver also runs the lead's Q1t.Model.Sim.collectConditionalRanges on every ranges request "
+            "every range, register); the register of a request is the traced register restricted to the bits written so far in THIS run (a run "
+            "starts from a zeroed register). Gates also: Kron(X,CX)/Kron(CX,X) and USER-DEFINED gates that provide only matrix() (cyclic "
+            "increments on 2/3/4 qubits, non-symmetric basis permutations, default kernels of the Gate trait), bare and inside "
+            "C/Kron/Composite/Loop (vector backend). EXECUTED AGAIN ON THE SAME OBJECT (`condrun2`): every 5th circuit, and 800 (4000 thorough) "
+            "feedback circuits (X preparation, a conditional gate that reads bits BEFORE the measurement that writes them in this run, H + "
+            "measure_all into exactly those bits, second conditional gate, measure_all), are executed once with another seed (same shot "
+            "count, now and then the other representation) and then again on the same Circuit object; the requests come from the trace of the "
+            "SECOND run. The driver also runs the lead's Q1t.Model.Sim.collectConditionalRanges on every ranges request "
             "and answers 'two-lean-models-disagree' on any difference. "
             "Non-trivial = ranges answer with >= 2 pieces, or circuit where the gate changed some shots' states and not others; "
             "distinct = distinct request line.",
@@ -68,7 +75,8 @@ def run(ctx):
     vlib.standard_flow(ctx, SPEC)
     ctx.assumptions += [
         "the state type and the gate action are parameters of the model (what a gate does to a column/tableau is C04/C06); at "
-        "circuit level the correspondence uses basis states and the basis-state action of X, Y, Z, S, CX, Swap, CCX",
+        "circuit level the correspondence uses basis states and the basis-state action of X, Y, Z, S, CX, Swap, CCX, Kron(X,CX), Kron(CX,X) and "
+        "of the harness's user-defined cyclic increments (bare and inside C/Kron/Composite/Loop)",
         "u64 shifts by >= 64 panic (overflow checks on, as in the harness build); in a release build they wrap",
         "layouts with all counts positive (an invariant of both backends for N > 0); N = 0 leaves counts = [0] and panics (D9)",
     ]
